@@ -22,7 +22,7 @@
      outcome [Incomplete] for all of them, the harness maps the texts, and (d) RespParser
      converts simple strings / errors with String::from_utf8_lossy, which the model does
      NOT reproduce: payloads of simple strings and errors are compared for RespParser only
-     when every byte is ASCII (see Corr/C15.v);
+     when the bytes are valid UTF-8, where the conversion is the identity (see Corr/C15.v);
    * each decoder returns its outcome together with the largest single allocation request
      (in bytes) it made on the way: `Vec::with_capacity(n)` requests n * 40 bytes
      (size_of::<RespValueZeroCopy>() = 40, asserted by the harness), a payload copy
